@@ -1545,6 +1545,15 @@ fn c03(rng: &mut Rng, thorough: bool, _hints: &[Vec<String>], rep: &mut Report) 
         // floats: the same expression to rounding
         let (xf, kf) = (x0 as f64 / 65536.0, k as f64 / 1048576.0);
         let mut sf = [0.0f64; 4];
+        for inf in [f64::INFINITY, f64::NEG_INFINITY] {
+            let mut s8 = [0.0f64; 4];
+            let mut s9 = [0.0f32; 4];
+            let mut s2 = [0.0f64; 2];
+            if idsp::iir::Biquad::<f64>::IDENTITY.update(&mut s8, inf) != inf || idsp::iir::Biquad::<f32>::IDENTITY.update(&mut s9, inf as f32) != inf as f32
+                || idsp::iir::Biquad::<f64>::IDENTITY.update(&mut s2, inf) != inf || idsp::iir::Biquad::<f64>::HOLD.update(&mut [0.0, 0.0, inf, 0.0], 1.0) != inf {
+                rep.violation("biquad-special-float", "IDENTITY returns x0 / HOLD returns y1 for every value (infinite sample, default limits)", &format!("x0 = {}", inf), &format!("{}", inf), "finite");
+            }
+        }
         if idsp::iir::Biquad::<f64>::IDENTITY.update(&mut sf, xf) != xf || idsp::iir::Biquad::<f64>::proportional(kf).update(&mut sf, xf) != kf * xf {
             rep.violation("biquad-special-float", "IDENTITY / proportional on f64", &format!("x0={} k={}", xf, kf), "exact", "other");
         }
@@ -1721,7 +1730,8 @@ fn c04(rng: &mut Rng, thorough: bool, hints: &[Vec<String>], rep: &mut Report) {
         let (mut s4, mut s5, mut s2) = ([0f64; 4], [0f64; 5], [0f64; 2]);
         let (mut t4, mut t5, mut t2) = ([0f32; 4], [0f32; 5], [0f32; 2]);
         for j in 0..24 {
-            let x = rng.range(-1000, 1000) as f64 / 50.0;
+            let mut x = rng.range(-1000, 1000) as f64 / 50.0;
+            if j == 11 { x = [f64::NAN, f64::INFINITY, f64::NEG_INFINITY][rng.below(3) as usize]; }
             let ys = [bq.update(&mut s4, x), bq.update(&mut s5, x), bq.update(&mut s2, x)];
             let zs = [bq32.update(&mut t4, x as f32), bq32.update(&mut t5, x as f32), bq32.update(&mut t2, x as f32)];
             let bad = ys.iter().any(|y| !(mn <= *y && *y <= mx)) || zs.iter().any(|z| !(mn as f32 <= *z && *z <= mx as f32));
@@ -2828,7 +2838,7 @@ fn c20(rng: &mut Rng, thorough: bool, hints: &[Vec<String>], rep: &mut Report) {
     for _ in 0..(n / 20) {
         let mut ny = Nyquist::default();
         let x = rng.i32();
-        if guard(|| { idsp::Filter::update(&mut ny, x, &()); idsp::Filter::update(&mut ny, rng.i32(), &()); idsp::Filter::set(&mut ny, x); idsp::Filter::get(&ny) }).is_none() {
+        if guard(|| { idsp::Filter::update(&mut ny, x, &()); idsp::Filter::update(&mut ny, rng.i32(), &()); idsp::Filter::set(&mut ny, x); idsp::Filter::update(&mut ny, x, &()); idsp::Filter::update(&mut ny, rng.i32(), &()); idsp::Filter::get(&ny) }).is_none() {
             rep.violation("filter-panic", "Nyquist filter never panics", &format!("Nyquist.update({})", x), "values", "PANIC");
         }
     }
